@@ -23,9 +23,9 @@ func mkOp(name string, arg any) seqOp {
 
 // seqSys is one live instance of the system (implementation + reference model + oracle).
 type seqSys interface {
-	apply(op seqOp)  // executes op on implementation and model, evaluates the oracles (findings go to the result)
-	key() string     // canonical state key
-	ops() []seqOp    // operations enabled in the current state, simplest first
+	apply(op seqOp) // executes op on implementation and model, evaluates the oracles (findings go to the result)
+	key() string    // canonical state key
+	ops() []seqOp   // operations enabled in the current state, simplest first
 	close()
 }
 
@@ -41,15 +41,17 @@ type seqStats struct {
 }
 
 type seqExplorer struct {
-	res      *vResult
-	scenario any
-	mk       func() seqSys
-	depth    int
+	res       *vResult
+	scenario  any
+	mk        func() seqSys
+	depth     int
 	maxStates int
-	stats    seqStats
+	stats     seqStats
 	// onState is called once per distinct state with a live system positioned in that state (e.g. to inject mutants)
 	onState func(sys seqSys, hist []seqOp)
-	cur     []seqOp // history being executed (for findings raised by the oracles)
+	// prefixFilter restricts the expansion of the node reached by hist to the operations it admits (work sharding)
+	prefixFilter func(hist []seqOp, i int) bool
+	cur          []seqOp // history being executed (for findings raised by the oracles)
 }
 
 func (e *seqExplorer) scenarioJSON() json.RawMessage {
@@ -112,6 +114,9 @@ func (e *seqExplorer) explore(rootFilter func(i int) bool) {
 			}
 			for i, op := range ops {
 				if d == 0 && rootFilter != nil && !rootFilter(i) {
+					continue
+				}
+				if e.prefixFilter != nil && !e.prefixFilter(n.hist, i) {
 					continue
 				}
 				h := append(append([]seqOp{}, n.hist...), op)
